@@ -1,5 +1,5 @@
 (* C08 — observe server. Only statements here; every proof is [exact <lemma of Proofs/C08*.v>]. *)
-From Verif Require Import Lib.Py Lib.Tactics Model.C08 Proofs.C08 Proofs.C08Silent Proofs.C08Ends Proofs.C08Observe Proofs.C08Wire Proofs.C08Latest.
+From Verif Require Import Lib.Py Lib.Tactics Model.C08 Proofs.C08 Proofs.C08Silent Proofs.C08Ends Proofs.C08Observe Proofs.C08Wire Proofs.C08Latest Proofs.C08Progress.
 Open Scope Z_scope.
 
 (* The resource's bookkeeping, for every history of requests, observer reactions, losses, timers, triggers,
@@ -157,6 +157,24 @@ Example C08_latest_state_unfair_example :
   map m_pv (queuel 0 s) = [3] /\ option_map m_pv (last_wire 0 s) = Some 1 /\ s_version s = 3.
 Proof. vm_compute. repeat split. Qed.
 
+(* ---- the liveness half (round 5): the fairness state is REACHED.  From every reachable state that is not shut down, for
+   every live registration, a finite list of progress events — renders stop being slow, the render in progress completes, the
+   peer acknowledges what is in flight (no state change, no loss) — leads, without changing the resource's version, to a state
+   where the registration has ended or is idle with nothing of it in the backlog; there the last datagram on the wire is current. *)
+Theorem C08_latest_state_reached : forall mid0 es g0, let s := run (init mid0) es in
+  In g0 (s_regs s) -> s_down s = false ->
+  exists es', Forall progress_event es' /\ let s' := run s es' in
+    s_version s' = s_version s /\
+    (~ live (g_gid g0) s' \/
+     exists g1, In g1 (s_regs s') /\ g_gid g1 = g_gid g0 /\ g_phase g1 = PWait /\ queuel (g_gid g0) s' = []).
+Proof. exact progress_lemma. Qed.
+Theorem C08_latest_state_eventually_sent : forall mid0 es g0, let s := run (init mid0) es in
+  In g0 (s_regs s) -> s_down s = false ->
+  exists es', Forall progress_event es' /\ let s' := run s es' in
+    s_version s' = s_version s /\
+    (~ live (g_gid g0) s' \/ exists m, last_wire (g_gid g0) s' = Some m /\ (m_pk m = 1 -> m_pv m = s_version s)).
+Proof. exact eventually_sent_lemma. Qed.
+
 (* code-level fact: a burst of triggers before the task runs leaves exactly the last value in the (lossy) future, with a sticky is_last *)
 Theorem C08_trigger_keeps_latest_loop : forall s gid g tv1 l1 tv2 l2, find_reg s gid = Some g ->
   find_reg (trigger (trigger s gid tv1 l1) gid tv2 l2) gid = Some (set_trig g (Some tv2) (g_late g || l1 || l2)).
@@ -184,6 +202,8 @@ Definition C08_history_level_theorems :=
    C08_backlog_fifo_invariant,
    C08_latest_state_sent,
    C08_latest_state_invariant,
+   C08_latest_state_reached,
+   C08_latest_state_eventually_sent,
    C08_cancel_exactly_once_count_restored,
    C08_silent_after_end_step,
    C08_silent_after_end,
